@@ -3265,6 +3265,581 @@ theorem C20_self_import_terminates :
       | _ => false) = true := by
   decide +kernel
 
+/-! ## Round 9: imports through files under every spelling; nested and spliced placeholders
+
+The file system is the parameter `fs : Str → Option (Nat × Str)`, a function of the NAME as written in the
+`import` directive: `main`, `main.conf`, `./main`, `../conf/main`, an absolute path are different
+arguments of `fs` that may or may not answer with the same file. Every termination theorem above
+(`expandImports_term`, `C20_terminates`, `C20_total`) is stated for every `fs`, i.e. for every way names
+can be made to reach files — cycles through any spelling included. The statements below make the two facts
+explicit on which that rests: an imported file is expanded ONE LEVEL DEEPER than the directive that
+imports it (the counter crosses files), and at depth 256 an import is refused before anything is resolved. -/
+
+/-- `resolveImport` on a file: the imported file's tree is read with `expansionDepth + 1`, whatever the
+name, whether it was found directly or through the `.conf` fallback, and with the budget counter of the
+importing context -/
+theorem C20_file_import_one_deeper (u : Uni) (fs : Fs) (prev : Nat → Maps → Node → Nat → Res (Node × Maps))
+    (m : Maps) (child : Node) (name : Str) (depth : Nat) (f : Nat × Str)
+    (hs : lookup m.snippets name = none)
+    (hf : fs name = some f ∨ (fs name = none ∧ fs (name ++ dotConf) = some f)) :
+    resolveImport u fs prev m child name depth =
+      (readTreeWith u prev f.2 f.1 (depth + 1) m.cnt >>= fun r =>
+        .ok (r.1, ⟨r.2.snippets ++ m.snippets, r.2.macros ++ m.macros, r.2.cnt⟩)) := by
+  unfold resolveImport
+  rw [hs]
+  rcases hf with h | ⟨h1, h2⟩
+  · simp [h]
+  · simp [h1, h2]
+
+/-- an `import` directive met at expansion depth 256 or more is refused with the import limit error
+before its argument is looked at: no snippet, no file, no name can get past it -/
+theorem C20_import_at_depth_limit_refused (u : Uni) (fs : Fs) (prev : Nat → Maps → Node → Nat → Res (Node × Maps))
+    (errLine : Nat) (m : Maps) (args : List Str) (ch : List Node) (sn ma : Bool) (f l : Nat) (rest : List Node)
+    (depth : Nat) (h : depth > 255) :
+    impList u fs prev errLine m (.mk importName args false ch sn ma f l :: rest) depth = .err .importLimit l := by
+  rw [impList, impNode]
+  simp [Bind.bind, Res.bind, Node.name, Node.line, h]
+
+/-- a directory in which EVERY name (any spelling) answers with the same file, and that file imports `x`:
+the longest possible chain. It ends with the import limit error. -/
+def loopFs : Fs := fun _ => some (1, "w {\n import ./x\n}\n".toList)
+
+theorem C20_file_cycle_any_name_terminates :
+    (match Cfg.read asciiUni loopFs [] "import ../conf/main\n".toList with
+      | .err k _ => k == ErrKind.importLimit
+      | _ => false) = true := by
+  decide +kernel
+
+/-- the main file on disk as `main.conf`, imported as `main` (found through the `.conf` fallback only) -/
+def mainConfFs : Fs := fun name =>
+  if name == "main.conf".toList then some (0, "x 1\nimport main\n".toList) else none
+
+theorem C20_self_import_without_extension_terminates :
+    (match Cfg.read asciiUni mainConfFs [] "x 1\nimport main\n".toList with
+      | .err k l => (k == ErrKind.importLimit) && l == 2
+      | _ => false) = true := by
+  decide +kernel
+
+/-- two files importing each other, one by its full name and one without the extension, inside blocks -/
+def twoFs : Fs := fun name =>
+  if name == "a.conf".toList then some (1, "p {\n import b\n}\n".toList)
+  else if name == "b.conf".toList then some (2, "q {\n import a.conf\n}\n".toList)
+  else none
+
+theorem C20_two_file_cycle_terminates :
+    (match Cfg.read asciiUni twoFs [] "import a\n".toList with
+      | .err k _ => k == ErrKind.importLimit
+      | _ => false) = true := by
+  decide +kernel
+
+/-- placeholders nested in or spliced around each other: the clean-up takes everything from the first
+`{env:` to the LAST `}` of the `$`-free stretch, so removing an inner placeholder can never leave the outer
+halves to close up into a new one -/
+theorem C20_nested_placeholders_removed :
+    expandEnvStr [("H".toList, "v".toList)] "{env:{env:UNSET}H}".toList = [] ∧
+    expandEnvStr [("H".toList, "v".toList)] "{e{env:UNSET}nv:H}".toList = "{e".toList ∧
+    expandEnvStr [("H".toList, "v".toList)] "a{env:U{env:H}}b".toList = "ab".toList ∧
+    expandEnvStr [("H".toList, "v".toList)] "{env:UNSET}-{env:H}".toList = "-v".toList ∧
+    expandEnvStr [("H".toList, "v".toList)] "{env:UNSET}-{env:U2}".toList = [] ∧
+    expandEnvStr [("H".toList, "v".toList)] "{env:UNSET}$-{env:H}".toList = "$-v".toList ∧
+    expandEnvStr [] "{env:{env:{env:U}U2}H}x".toList = "x".toList := by
+  decide +kernel
+
+theorem reRemove_skip (pre : Str) (close : Char) : ∀ (xs rest : Str),
+    reRemoveAllGo pre close xs.length (xs ++ rest) = reRemoveAllGo pre close 0 rest
+  | [], rest => by simp
+  | x :: xs, rest => by
+    simp only [List.length_cons, List.cons_append]
+    conv => lhs; unfold reRemoveAllGo
+    exact reRemove_skip pre close xs rest
+
+/-- `{env:` + body + `}` followed by text without `$` and `}`: the match runs to this LAST `}`, whatever the
+body contains (braces, complete placeholders, halves of placeholders) as long as it has no `$` -/
+theorem reMatch_env_span (body post : Str) (hn : body ≠ []) (hn1 : ∀ c ∈ body, c ≠ '$')
+    (hp : ∀ c ∈ post, c ≠ '$' ∧ c ≠ '}') :
+    reMatch envPre '}' (envPre ++ body ++ ['}'] ++ post) = some (body.length + 6, body) := by
+  unfold reMatch
+  have hpre : envPre.isPrefixOf (envPre ++ body ++ ['}'] ++ post) = true := by
+    simp [envPre, List.isPrefixOf]
+  rw [hpre]
+  simp only [if_true]
+  have hdrop : (envPre ++ body ++ ['}'] ++ post).drop envPre.length = body ++ '}' :: post := by
+    simp [envPre]
+  rw [hdrop]
+  have htw : (body ++ '}' :: post).takeWhile (· != '$') = body ++ '}' :: post := by
+    apply takeWhile_all
+    intro c hc
+    simp only [List.mem_append, List.mem_cons] at hc
+    rcases hc with hc | hc | hc
+    · simpa using hn1 c hc
+    · subst hc; decide
+    · simpa using (hp c hc).1
+  rw [htw]
+  have hlen : 1 ≤ body.length := by
+    cases body with
+    | nil => exact absurd rfl hn
+    | cons _ _ => simp
+  rw [lastIdx_last '}' post (fun x hx => (hp x hx).2) body 0 (by omega)]
+  simp only [Nat.zero_add]
+  have : (body ++ '}' :: post).take body.length = body := by simp
+  rw [this]
+  simp [envPre]; omega
+
+theorem reRemove_noClose : ∀ s : Str, (∀ c ∈ s, c ≠ '}') → reRemoveAllGo envPre '}' 0 s = s
+  | [], _ => by simp [reRemoveAllGo]
+  | c :: cs, h => by
+    have hm : reMatch envPre '}' (c :: cs) = none := by
+      unfold reMatch
+      have hl : lastIdxFrom1 '}' 0 (List.takeWhile (fun x => x != '$') (List.drop envPre.length (c :: cs))) = none := by
+        apply lastIdx_none
+        intro x hx
+        have h1 := (List.takeWhile_prefix _).subset hx
+        have h2 := List.mem_of_mem_drop h1
+        exact h x h2
+      split
+      · simp only [hl]
+      · rfl
+    unfold reRemoveAllGo
+    rw [hm]
+    simp only
+    rw [reRemove_noClose cs (fun x hx => h x (by simp [hx]))]
+
+/-- **nested and spliced placeholders vanish as a whole.** Text without `{`, then `{env:`, then ANY
+non-empty `$`-free body — it may contain complete placeholders, `{env:` halves, braces —, the closing
+`}`, then text without `$` and `}`: the clean-up of unset placeholders returns exactly the two outer
+texts. Removing an inner placeholder first and letting the rest close up into a new placeholder
+(`{env:{env:UNSET}HOME}` ↦ `{env:HOME}`) is not something this function can do. -/
+theorem C20_placeholder_span_removed (pre body post : Str) (hpre : ∀ c ∈ pre, c ≠ '{')
+    (hn : body ≠ []) (hn1 : ∀ c ∈ body, c ≠ '$') (hp : ∀ c ∈ post, c ≠ '$' ∧ c ≠ '}') :
+    removeUnexpandedEnvvars (pre ++ (envPre ++ body ++ ['}'] ++ post)) = pre ++ post := by
+  unfold removeUnexpandedEnvvars
+  induction pre with
+  | nil =>
+    simp only [List.nil_append]
+    have hm := reMatch_env_span body post hn hn1 hp
+    have hshape : envPre ++ body ++ ['}'] ++ post = '{' :: ("env:".toList ++ body ++ ['}']) ++ post := by simp [envPre]
+    rw [hshape] at hm ⊢
+    simp only [List.cons_append] at hm ⊢
+    unfold reRemoveAllGo
+    rw [hm]
+    simp only
+    have hskip := reRemove_skip envPre '}' ("env:".toList ++ body ++ ['}']) post
+    have hl : ("env:".toList ++ body ++ ['}']).length = body.length + 6 - 1 := by simp
+    rw [hl] at hskip
+    simp only [List.append_assoc, List.cons_append, List.nil_append] at hskip ⊢
+    rw [hskip]
+    exact reRemove_noClose post (fun c hc => (hp c hc).2)
+  | cons c cs ih =>
+    have hc : c ≠ '{' := hpre c (by simp)
+    have hm : reMatch envPre '}' (c :: (cs ++ (envPre ++ body ++ ['}'] ++ post))) = none := by
+      unfold reMatch
+      have : envPre.isPrefixOf (c :: (cs ++ (envPre ++ body ++ ['}'] ++ post))) = false := by
+        simp [envPre, List.isPrefixOf]
+        intro h1; exact absurd h1.symm hc
+      rw [this]
+      simp
+    simp only [List.cons_append]
+    unfold reRemoveAllGo
+    rw [hm]
+    simp only
+    rw [ih (fun x hx => hpre x (by simp [hx]))]
+
+example : removeUnexpandedEnvvars "x={env:{env:UNSET}HOME}/y".toList = "x=/y".toList :=
+  C20_placeholder_span_removed "x=".toList "{env:UNSET}HOME".toList "/y".toList (by decide) (by decide) (by decide) (by decide)
+
+/-! ### No placeholder is left: the general statement -/
+
+/-- `Dfree s`: no `$` in `s` -/
+def Dfree (s : Str) : Prop := ∀ c ∈ s, c ≠ '$'
+
+/-- a complete placeholder stands at the start of `t`: `{env:`, a non-empty `$`-free name, `}` -/
+def PlaceholderAt (t : Str) : Prop :=
+  ∃ body rest, body ≠ [] ∧ Dfree body ∧ t = envPre ++ body ++ '}' :: rest
+
+/-- `Safe x`: the `$`-free stretch at the start of `x` holds no `}` -/
+def SafeRun (x : Str) : Prop := ∀ body rest, Dfree body → x ≠ body ++ '}' :: rest
+
+theorem lastIdx_some_of_mem (c : Char) : ∀ (xs : Str) (i : Nat), 1 ≤ i → c ∈ xs → lastIdxFrom1 c i xs ≠ none
+  | [], _, _, h => by simp at h
+  | x :: xs, i, hi, h => by
+    unfold lastIdxFrom1
+    cases hr : lastIdxFrom1 c (i + 1) xs with
+    | some q => simp
+    | none =>
+      simp only
+      have hx : c ∉ xs := fun hm => lastIdx_some_of_mem c xs (i + 1) (by omega) hm hr
+      have : x = c := by
+        rcases List.mem_cons.mp h with h | h
+        · exact h.symm
+        · exact absurd h hx
+      simp [this, hi]
+
+theorem lastIdx_spec (c : Char) : ∀ (xs : Str) (i p : Nat), lastIdxFrom1 c i xs = some p →
+    ∃ a b, xs = a ++ c :: b ∧ p = i + a.length ∧ (∀ x ∈ b, x ≠ c) ∧ 1 ≤ p
+  | [], _, _, h => by simp [lastIdxFrom1] at h
+  | x :: xs, i, p, h => by
+    unfold lastIdxFrom1 at h
+    cases hr : lastIdxFrom1 c (i + 1) xs with
+    | some q =>
+      rw [hr] at h
+      simp only [Option.some.injEq] at h
+      subst h
+      obtain ⟨a, b, h1, h2, h3, h4⟩ := lastIdx_spec c xs (i + 1) q hr
+      exact ⟨x :: a, b, by simp [h1], by simp [h2]; omega, h3, h4⟩
+    | none =>
+      rw [hr] at h
+      simp only at h
+      by_cases hx : (x == c && decide (i ≥ 1)) = true
+      · rw [if_pos hx] at h
+        simp only [Option.some.injEq] at h
+        subst h
+        simp only [Bool.and_eq_true, beq_iff_eq, decide_eq_true_eq] at hx
+        refine ⟨[], xs, by simp [hx.1], by simp, ?_, hx.2⟩
+        intro y hy hyc
+        subst hyc
+        exact lastIdx_some_of_mem y xs (i + 1) (by omega) hy hr
+      · rw [if_neg hx] at h
+        simp at h
+
+
+theorem dropWhile_head {p : Char → Bool} : ∀ (d : Str) (e0 : Char) (e' : Str), d.dropWhile p = e0 :: e' → p e0 = false
+  | [], _, _, h => by simp at h
+  | x :: xs, e0, e', h => by
+    by_cases hx : p x = true
+    · rw [List.dropWhile_cons_of_pos hx] at h
+      exact dropWhile_head xs e0 e' h
+    · rw [List.dropWhile_cons_of_neg hx] at h
+      simp only [List.cons.injEq] at h
+      rw [← h.1]; simpa using hx
+
+theorem mem_takeWhile_sat {p : Char → Bool} : ∀ (l : Str) (c : Char), c ∈ l.takeWhile p → p c = true
+  | [], _, h => by simp at h
+  | x :: xs, c, h => by
+    by_cases hx : p x = true
+    · rw [List.takeWhile_cons_of_pos hx] at h
+      rcases List.mem_cons.mp h with h | h
+      · rw [h]; exact hx
+      · exact mem_takeWhile_sat xs c h
+    · rw [List.takeWhile_cons_of_neg hx] at h
+      simp at h
+
+theorem takeWhile_append_all {p : Char → Bool} : ∀ (a l : Str), (∀ c ∈ a, p c = true) →
+    (a ++ l).takeWhile p = a ++ l.takeWhile p
+  | [], _, _ => rfl
+  | x :: a, l, h => by
+    simp only [List.cons_append, List.takeWhile, h x (by simp)]
+    rw [takeWhile_append_all a l (fun c hc => h c (by simp [hc]))]
+
+theorem safeRun_after (b dw : Str) (hb : ∀ x ∈ b, x ≠ '}') (hdw : ∀ e0 e', dw = e0 :: e' → e0 = '$') :
+    SafeRun (b ++ dw) := by
+  intro body rest hbody heq
+  rcases List.append_eq_append_iff.mp heq with ⟨a', h1, h2⟩ | ⟨c', h1, h2⟩
+  · -- body = b ++ a', dw = a' ++ '}' :: rest
+    cases a' with
+    | nil =>
+      have := hdw '}' rest (by simpa using h2)
+      exact absurd this (by decide)
+    | cons x a'' =>
+      have hx := hdw x (a'' ++ '}' :: rest) (by simpa using h2)
+      exact hbody x (by rw [h1]; simp) hx
+  · cases c' with
+    | nil =>
+      have := hdw '}' rest (by simpa using h2.symm)
+      exact absurd this (by decide)
+    | cons y c'' =>
+      simp only [List.cons_append, List.cons.injEq] at h2
+      exact hb y (by rw [h1]; simp) h2.1.symm
+
+/-- what a match of the clean-up pattern is: `{env:` + non-empty `$`-free body + `}`, taken up to the LAST `}`
+of the `$`-free stretch — what follows the match has no `}` before its first `$` -/
+theorem reMatch_env_some (t : Str) (n : Nat) (g : Str) (h : reMatch envPre '}' t = some (n, g)) :
+    ∃ body rest, body ≠ [] ∧ Dfree body ∧ t = envPre ++ body ++ '}' :: rest ∧ n = body.length + 6 ∧ SafeRun rest := by
+  unfold reMatch at h
+  by_cases hp : envPre.isPrefixOf t = true
+  · rw [if_pos hp] at h
+    obtain ⟨d, hd⟩ := List.isPrefixOf_iff_prefix.mp hp
+    subst hd
+    have hdrop : (envPre ++ d).drop envPre.length = d := by simp
+    rw [hdrop] at h
+    simp only at h
+    cases hl : lastIdxFrom1 '}' 0 (d.takeWhile (· != '$')) with
+    | none => rw [hl] at h; simp at h
+    | some p =>
+      rw [hl] at h
+      simp only [Option.some.injEq, Prod.mk.injEq] at h
+      obtain ⟨a, b, h1, h2, h3, h4⟩ := lastIdx_spec '}' _ 0 p hl
+      have hsplit : d = d.takeWhile (· != '$') ++ d.dropWhile (· != '$') := (List.takeWhile_append_dropWhile).symm
+      have hall : ∀ c ∈ d.takeWhile (· != '$'), c ≠ '$' := by
+        intro c hc
+        have := mem_takeWhile_sat _ c hc
+        simpa using this
+      refine ⟨a, b ++ d.dropWhile (· != '$'), ?_, ?_, ?_, ?_, ?_⟩
+      · intro ha; subst ha; simp at h2; omega
+      · intro c hc; exact hall c (by rw [h1]; simp [hc])
+      · conv => lhs; rw [hsplit, h1]
+        simp
+      · rw [← h.1, h2]; simp [envPre]; omega
+      · apply safeRun_after b _ h3
+        intro e0 e' he
+        have := dropWhile_head d e0 e' he
+        simpa using this
+  · rw [if_neg hp] at h; simp at h
+
+theorem reMatch_env_of_placeholder (t : Str) (h : PlaceholderAt t) : reMatch envPre '}' t ≠ none := by
+  obtain ⟨body, rest, hne, hfree, ht⟩ := h
+  subst ht
+  unfold reMatch
+  have hpre : envPre.isPrefixOf (envPre ++ body ++ '}' :: rest) = true := by
+    simp [envPre, List.isPrefixOf]
+  rw [if_pos hpre]
+  have hdrop : (envPre ++ body ++ '}' :: rest).drop envPre.length = body ++ '}' :: rest := by simp [envPre]
+  rw [hdrop]
+  simp only
+  have htw : (body ++ '}' :: rest).takeWhile (· != '$') = body ++ ('}' :: rest).takeWhile (· != '$') :=
+    takeWhile_append_all body _ (fun c hc => by simpa using hfree c hc)
+  rw [htw]
+  cases body with
+  | nil => exact absurd rfl hne
+  | cons b0 body' =>
+    have hmem : '}' ∈ body' ++ ('}' :: rest).takeWhile (· != '$') := by
+      simp [List.takeWhile]
+    have hs := lastIdx_some_of_mem '}' _ 1 (by omega) hmem
+    simp only [List.cons_append]
+    unfold lastIdxFrom1
+    cases hl : lastIdxFrom1 '}' (0 + 1) (body' ++ ('}' :: rest).takeWhile (· != '$')) with
+    | none => exact absurd hl hs
+    | some q => simp
+
+
+theorem reRemove_drop (pre : Str) (close : Char) : ∀ (k : Nat) (s : Str),
+    reRemoveAllGo pre close k s = reRemoveAllGo pre close 0 (s.drop k)
+  | 0, s => by simp
+  | k + 1, [] => by simp [reRemoveAllGo]
+  | k + 1, x :: xs => by
+    conv => lhs; unfold reRemoveAllGo
+    simp only [List.drop_succ_cons]
+    exact reRemove_drop pre close k xs
+
+theorem cleanup_nomatch (c : Char) (cs : Str) (h : reMatch envPre '}' (c :: cs) = none) :
+    removeUnexpandedEnvvars (c :: cs) = c :: removeUnexpandedEnvvars cs := by
+  unfold removeUnexpandedEnvvars
+  conv => lhs; unfold reRemoveAllGo
+  rw [h]
+
+theorem cleanup_match (c : Char) (cs : Str) (n : Nat) (g : Str) (h : reMatch envPre '}' (c :: cs) = some (n, g)) (hn : 1 ≤ n) :
+    removeUnexpandedEnvvars (c :: cs) = removeUnexpandedEnvvars ((c :: cs).drop n) := by
+  unfold removeUnexpandedEnvvars
+  conv => lhs; unfold reRemoveAllGo
+  rw [h]
+  simp only
+  rw [reRemove_drop]
+  obtain ⟨m, rfl⟩ : ∃ m, n = m + 1 := ⟨n - 1, by omega⟩
+  simp
+
+theorem placeholderAt_append (u y : Str) (h : PlaceholderAt u) : PlaceholderAt (u ++ y) := by
+  obtain ⟨body, rest, h1, h2, h3⟩ := h
+  exact ⟨body, rest ++ y, h1, h2, by rw [h3]; simp⟩
+
+theorem dfree_envPre : Dfree envPre := by
+  intro c hc
+  simp [envPre] at hc
+  rcases hc with h | h | h | h | h <;> (subst h; decide)
+
+theorem placeholderAt_of_safe (u x : Str) (hx : SafeRun x) (h : PlaceholderAt (u ++ x)) : PlaceholderAt u := by
+  obtain ⟨body, rest, h1, h2, h3⟩ := h
+  have h3' : u ++ x = (envPre ++ body) ++ '}' :: rest := by rw [h3]
+  have hw : Dfree (envPre ++ body) := by
+    intro c hc
+    rcases List.mem_append.mp hc with hc | hc
+    · exact dfree_envPre c hc
+    · exact h2 c hc
+  rcases List.append_eq_append_iff.mp h3' with ⟨a', ha1, ha2⟩ | ⟨c', hc1, hc2⟩
+  · -- envPre ++ body = u ++ a', x = a' ++ '}' :: rest
+    exfalso
+    exact hx a' rest (fun c hc => hw c (by rw [ha1]; simp [hc])) ha2
+  · -- u = envPre ++ body ++ c', '}' :: rest = c' ++ x
+    cases c' with
+    | nil =>
+      exfalso
+      exact hx [] rest (fun c hc => by simp at hc) (by simpa using hc2.symm)
+    | cons y c'' =>
+      simp only [List.cons_append, List.cons.injEq] at hc2
+      refine ⟨body, c'', h1, h2, ?_⟩
+      rw [hc1, ← hc2.1]
+
+theorem safeRun_dollar (cs : Str) : SafeRun ('$' :: cs) := by
+  intro body rest hb heq
+  cases body with
+  | nil => simp at heq
+  | cons b0 body' =>
+    simp only [List.cons_append, List.cons.injEq] at heq
+    exact hb b0 (by simp) heq.1.symm
+
+theorem safeRun_tail (c : Char) (cs : Str) (hc : c ≠ '$') (h : SafeRun (c :: cs)) : SafeRun cs := by
+  intro body rest hb heq
+  apply h (c :: body) rest
+  · intro x hx
+    rcases List.mem_cons.mp hx with hx | hx
+    · rw [hx]; exact hc
+    · exact hb x hx
+  · rw [heq]; simp
+
+theorem safeRun_nomatch (x : Str) (h : SafeRun x) : reMatch envPre '}' x = none := by
+  cases hm : reMatch envPre '}' x with
+  | none => rfl
+  | some r =>
+    obtain ⟨body, rest, h1, h2, h3, _, _⟩ := reMatch_env_some x r.1 r.2 hm
+    exfalso
+    apply h (envPre ++ body) rest
+    · intro c hc
+      rcases List.mem_append.mp hc with hc | hc
+      · exact dfree_envPre c hc
+      · exact h2 c hc
+    · rw [h3]
+
+theorem safeRun_cleanup : ∀ x : Str, SafeRun x → SafeRun (removeUnexpandedEnvvars x)
+  | [], h => by simpa [removeUnexpandedEnvvars, reRemoveAllGo] using h
+  | c :: cs, h => by
+    rw [cleanup_nomatch c cs (safeRun_nomatch _ h)]
+    by_cases hc : c = '$'
+    · subst hc; exact safeRun_dollar _
+    · have ih := safeRun_cleanup cs (safeRun_tail c cs hc h)
+      intro body rest hb heq
+      cases body with
+      | nil =>
+        simp only [List.nil_append, List.cons.injEq] at heq
+        exact h [] cs (fun x hx => by simp at hx) (by rw [heq.1]; simp)
+      | cons b0 body' =>
+        simp only [List.cons_append, List.cons.injEq] at heq
+        exact ih body' rest (fun x hx => hb x (by simp [hx])) heq.2
+
+/-- the output of the clean-up starts with a piece of the input that was copied, followed by text whose
+`$`-free stretch holds no `}` -/
+theorem cleanup_shape : ∀ cs : Str, ∃ u y x, cs = u ++ y ∧ removeUnexpandedEnvvars cs = u ++ x ∧ SafeRun x
+  | [] => ⟨[], [], [], by simp, by simp [removeUnexpandedEnvvars, reRemoveAllGo], by
+      intro body rest _ h; simp at h⟩
+  | c :: cs => by
+    cases hm : reMatch envPre '}' (c :: cs) with
+    | none =>
+      obtain ⟨u, y, x, h1, h2, h3⟩ := cleanup_shape cs
+      exact ⟨c :: u, y, x, by rw [h1]; simp, by rw [cleanup_nomatch c cs hm, h2]; simp, h3⟩
+    | some r =>
+      obtain ⟨body, rest, _, _, h3, h4, h5⟩ := reMatch_env_some (c :: cs) r.1 r.2 hm
+      refine ⟨[], c :: cs, removeUnexpandedEnvvars rest, by simp, ?_, safeRun_cleanup rest h5⟩
+      rw [cleanup_match c cs r.1 r.2 hm (by omega)]
+      have : (c :: cs).drop r.1 = rest := by
+        rw [h3, h4]
+        have : (envPre ++ body ++ '}' :: rest) = (envPre ++ body ++ ['}']) ++ rest := by simp
+        rw [this]
+        have hl : (envPre ++ body ++ ['}']).length = body.length + 6 := by simp [envPre]
+        rw [← hl]
+        simp
+      rw [this]; simp
+
+/-- **no placeholder is left.** Whatever the input — placeholders nested in each other, halves of a
+placeholder around another one, any number of levels —, no complete placeholder (`{env:`, a non-empty
+`$`-free name, `}`) stands anywhere in what the clean-up of unset placeholders returns. -/
+theorem C20_no_placeholder_residue_aux : ∀ (n : Nat) (s : Str), s.length ≤ n →
+    ∀ t, t <:+ removeUnexpandedEnvvars s → ¬ PlaceholderAt t
+  | _, [], _, t, ht, hp => by
+    have : t = [] := by simpa [removeUnexpandedEnvvars, reRemoveAllGo] using ht
+    subst this
+    obtain ⟨body, rest, _, _, h⟩ := hp
+    simp [envPre] at h
+  | 0, c :: cs, hl, _, _, _ => by simp at hl
+  | n + 1, c :: cs, hl, t, ht, hp => by
+    cases hm : reMatch envPre '}' (c :: cs) with
+    | none =>
+      rw [cleanup_nomatch c cs hm] at ht
+      rcases List.suffix_cons_iff.mp ht with h | h
+      · subst h
+        obtain ⟨u, y, x, h1, h2, h3⟩ := cleanup_shape cs
+        rw [h2] at hp
+        have hp' : PlaceholderAt ((c :: u) ++ x) := by simpa using hp
+        have hu := placeholderAt_of_safe (c :: u) x h3 hp'
+        have hcs := placeholderAt_append (c :: u) y hu
+        have : (c :: u) ++ y = c :: cs := by rw [h1]; simp
+        rw [this] at hcs
+        exact reMatch_env_of_placeholder _ hcs hm
+      · exact C20_no_placeholder_residue_aux n cs (by simp at hl; omega) t h hp
+    | some r =>
+      obtain ⟨body, rest, _, _, h3, h4, _⟩ := reMatch_env_some (c :: cs) r.1 r.2 hm
+      rw [cleanup_match c cs r.1 r.2 hm (by omega)] at ht
+      refine C20_no_placeholder_residue_aux n ((c :: cs).drop r.1) ?_ t ht hp
+      simp only [List.length_drop, List.length_cons] at hl ⊢
+      omega
+
+theorem C20_no_placeholder_residue (s t : Str) (ht : t <:+ removeUnexpandedEnvvars s) : ¬ PlaceholderAt t :=
+  C20_no_placeholder_residue_aux s.length s (Nat.le_refl _) t ht
+
+/-- … and therefore in no string `expandEnvStr` returns, for every environment (values that contain
+placeholder text included: the clean-up runs after the replacement) -/
+theorem C20_expandEnvStr_no_placeholder (env : List (Str × Str)) (s t : Str) (ht : t <:+ expandEnvStr env s) :
+    ¬ PlaceholderAt t :=
+  C20_no_placeholder_residue _ t ht
+
+/-- no complete placeholder anywhere in the string -/
+def NoPh (s : Str) : Prop := ∀ t, t <:+ s → ¬ PlaceholderAt t
+
+mutual
+def NoPhN : Node → Prop
+  | .mk name args _ ch _ _ _ _ => NoPh name ∧ (∀ a ∈ args, NoPh a) ∧ NoPhL ch
+def NoPhL : List Node → Prop
+  | [] => True
+  | n :: ns => NoPhN n ∧ NoPhL ns
+end
+
+mutual
+theorem expandEnv_noPh (env : List (Str × Str)) : ∀ n : Node, NoPhN (expandEnvNode env n)
+  | .mk name args block ch sn ma f l => by
+    unfold expandEnvNode
+    unfold NoPhN
+    refine ⟨fun t ht => C20_expandEnvStr_no_placeholder env name t ht, ?_, expandEnvL_noPh env ch⟩
+    intro a ha
+    obtain ⟨a0, _, rfl⟩ := List.mem_map.mp ha
+    exact fun t ht => C20_expandEnvStr_no_placeholder env a0 t ht
+theorem expandEnvL_noPh (env : List (Str × Str)) : ∀ ns : List Node, NoPhL (expandEnvList env ns)
+  | [] => by simp [expandEnvList, NoPhL]
+  | n :: ns => by
+    unfold expandEnvList
+    unfold NoPhL
+    exact ⟨expandEnv_noPh env n, expandEnvL_noPh env ns⟩
+end
+
+/-- **every tree `Read` returns is free of environment placeholders**: no directive name and no argument,
+at any depth, wherever it came from (main file, snippet body, imported file, macro value), contains
+`{env:` + a non-empty `$`-free name + `}` — for every input, directory and environment. -/
+theorem C20_no_placeholder_in_tree (u : Uni) (fs : Fs) (env : List (Str × Str)) (bs : List Nat) (ns : List Node)
+    (h : readBytes u fs env bs = .ok ns) : NoPhL ns := by
+  unfold readBytes Cfg.read at h
+  cases hr : readTree u fs (decodeUtf8 bs) with
+  | ok r =>
+    rw [hr] at h
+    simp only [Bind.bind, Res.bind, Res.ok.injEq] at h
+    rw [← h]
+    exact expandEnvL_noPh env r.1
+  | err k l => rw [hr] at h; simp [Bind.bind, Res.bind] at h
+  | panic => rw [hr] at h; simp [Bind.bind, Res.bind] at h
+  | fuel => rw [hr] at h; simp [Bind.bind, Res.bind] at h
+
+/-- the hypothesis-free statement is not vacuous: `{env:HOME}` is a placeholder, and the nested input of the
+reviewers comes out without one -/
+example : PlaceholderAt "{env:HOME}/x".toList := ⟨"HOME".toList, "/x".toList, by decide, by intro c hc; simp at hc; rcases hc with h | h | h | h <;> (subst h; decide), by decide⟩
+
+/-- placeholders in a snippet body and in an imported file are expanded wherever the snippet is imported:
+`Read` expands the environment on the finished tree, after import expansion -/
+def envFs : Fs := fun name =>
+  if name == "lib".toList then some (1, "(fs) {\n c {env:H}\n}\nd {env:H}{env:U}\n".toList) else none
+
+theorem C20_placeholders_in_snippets_and_files_expanded :
+    (match Cfg.read asciiUni envFs [("H".toList, "v".toList)]
+        "(s) {\n a {env:H} x{env:U}y \"{env:{env:U}H}\"\n}\nimport s\nb {\n import s\n import lib\n import fs\n}\n".toList with
+      | .ok ns => printList ns
+      | _ => []) =
+      "\"a\" \"v\" \"xy\" \"\"\n\"b\" {\n\"a\" \"v\" \"xy\" \"\"\n\"d\" \"v\"\n\"c\" \"v\"\n}\n".toList := by
+  decide +kernel
+
+
 /-! ## UTF-8: decoding the encoding of a character list gives it back -/
 
 /-- `utf8.EncodeRune` / `string(rune)` for a Unicode scalar value -/
